@@ -43,6 +43,16 @@ impl LazyBigint {
         }
     }
 
+    /// remainder of floored division: the result has the sign of `rhs`
+    pub(crate) fn mod_floor(self, rhs: Self) -> Self {
+        let r = self % rhs.clone();
+        if !r.is_zero() && (r.is_negative() != rhs.is_negative()) {
+            r + rhs
+        } else {
+            r
+        }
+    }
+
     pub(crate) fn div_ceil(self, rhs: Self) -> Self {
         match (self, rhs) {
             (Self::Short(SmallInt::MIN), Self::Short(-1)) => Self::from(-BigInt::from(SmallInt::MIN)),
